@@ -513,8 +513,8 @@ def load(config, fresh=False):
     key = config
     if key in _PROGRAMS and not fresh:
         return _PROGRAMS[key]
-    d, dg, info = _extract.extract(config, fresh=fresh)
-    p = Program(config, d, dg, info)
+    # (the facts are read under the configuration's lock: a concurrent `fresh` run or cache pruning cannot pull the directory away)
+    p = _extract.extract(config, fresh=fresh, reader=lambda d, dg, info: Program(config, d, dg, info))
     _PROGRAMS[key] = p
     return p
 
